@@ -511,3 +511,37 @@ Proof.
       cbn [reply_of cmsg_code]; try reflexivity; try (exfalso; apply H; reflexivity);
       (match goal with |- context [N.eqb ?a ?b] => destruct (N.eqb_spec a b) end; [contradiction|reflexivity]).
 Qed.
+
+(** ** Full-strength corollaries for realms without authorizer *)
+Theorem realm_reply_owned_noauthz_proof : forall cfg ops x q pre e post fin,
+    c_authz cfg = None ->
+    Forall op_ok ops -> k0 cfg + N.of_nat (List.length ops) <= max_idN ->
+    trace cfg ops = pre ++ e :: post -> is_reply_ev (x, q) fin e ->
+    exists e0, In e0 pre /\ is_call_ev (x, q) e0.
+Proof.
+  intros cfg ops x q pre e post fin Ha Ho Hk.
+  exact (realm_reply_owned_proof cfg ops x q pre e post fin Ho Hk (gate_fresh_no_authz cfg ops Ha)).
+Qed.
+
+Theorem realm_reply_unique_noauthz_proof : forall cfg ops x q pre e1 mid e2 post fin,
+    c_authz cfg = None ->
+    Forall op_ok ops -> k0 cfg + N.of_nat (List.length ops) <= max_idN ->
+    trace cfg ops = pre ++ e1 :: mid ++ e2 :: post ->
+    is_reply_ev (x, q) true e1 -> is_reply_ev (x, q) fin e2 ->
+    exists e0, In e0 mid /\ is_call_ev (x, q) e0.
+Proof.
+  intros cfg ops x q pre e1 mid e2 post fin Ha Ho Hk.
+  exact (realm_reply_unique_proof cfg ops x q pre e1 mid e2 post fin Ho Hk (gate_fresh_no_authz cfg ops Ha)).
+Qed.
+
+Theorem broker_outputs_quiet_proof :
+    (forall cfg lk now b pg pub req opts topic args kw, allb (snd (publish cfg lk now b pg pub req opts topic args kw))) /\
+    (forall cfg b pg sid req opts topic, allb (snd (subscribe cfg b pg sid req opts topic))) /\
+    (forall b pg sid req subid, allb (snd (unsubscribe b pg sid req subid))) /\
+    (forall b pg sid, allb (snd (broker_remove_session b pg sid))) /\
+    (forall mps r, allb (snd (meta_publish_all r mps))) /\
+    (forall m, bmsg m = true -> reply_of m = None).
+Proof.
+  exact (conj publish_allb (conj subscribe_allb (conj unsubscribe_allb
+        (conj broker_remove_session_allb (conj meta_publish_all_allb bmsg_no_reply))))).
+Qed.
